@@ -186,7 +186,10 @@ def check(case):
             emax = max(np.abs(np.array(m.far_field.e_theta)).max(), np.abs(np.array(m.far_field.e_phi)).max())
             # the staggered pulse / charge discretisation leaves a radial 1/r residual of the order
             # (k * segment)^2 / 12 of the pattern maximum (measured: 0.3 % for lambda/20 segments)
-            resid = (k * maxseg) ** 2 / 12.0 + 3.0 / (k * r)
+            # a pulse with unequal halves carries its current moment (l1 - l0) / 4 away from the point its charges
+            # are balanced about: first-order radial residual k |l1 - l0| / 4 of that pulse's contribution
+            uneq = max([abs(p.l1 - p.l0) for p in topo.pulses if p.kind != 'gnd'] + [0.0])
+            resid = (k * maxseg) ** 2 / 12.0 + k * uneq / 4.0 + 3.0 / (k * r)
             in_null = np.linalg.norm(Eff) < 0.1 * emax
             if in_null:
                 labels.append('far-point-in-null')
